@@ -33,6 +33,12 @@ class weekday(object):
     def __ne__(self, other):
         return not (self == other)
 
+    def __reduce__(self):
+        # Classes with __slots__ cannot be pickled with protocols 0 and 1
+        # unless they say how, and neither can anything that holds a weekday
+        # (relativedelta, tzrange, tzstr, rrule).
+        return (self.__class__, (self.weekday, self.n))
+
     def __repr__(self):
         s = ("MO", "TU", "WE", "TH", "FR", "SA", "SU")[self.weekday]
         if not self.n:
